@@ -16,3 +16,6 @@ def suites(tier):
 
 classify = W.classify
 replay_case = W.replay_case
+
+MANIFEST_ADD = {"text": 'Add-on Props/C16_cfg.v (C16_cfg_supplied_framer_instance_kept): the Twisted client protocol keeps the framer INSTANCE it is given, whatever its buffer holds (no framer class defines __bool__ / __len__); tied by constructing the three protocol classes with instances of the four framers.',
+                "note": ''}
